@@ -44,7 +44,7 @@ func main() {
 
 func cases(tier string) int {
 	if tier == "thorough" {
-		return 60000
+		return 200000
 	}
 	return 5000
 }
